@@ -91,6 +91,21 @@ func tryReplay(p *Prog, ob *Obligation, model map[string]string, o *options) *re
 	return rr
 }
 
+// tryReplayNoModel runs the function's driver without model values (the driver falls back to its own defaults).
+func tryReplayNoModel(p *Prog, ob *Obligation, o *options) *replayResult {
+	dp := driverPath(o, ob.FuncKey)
+	src, err := os.ReadFile(dp)
+	if err != nil {
+		return nil
+	}
+	rr := &replayResult{Driver: dp, Inputs: map[string]string{}, Note: "the solvers gave no model for this obligation; the driver used its built-in witness; "}
+	if m := replayPkgRe.FindSubmatch(src); m != nil {
+		rr.Package = string(m[1])
+	}
+	runDriver(p.repoDir, rr, ob.Name, o)
+	return rr
+}
+
 // parseGetValue parses "((t1 v1) (t2 v2) ...)" returning the values in order.
 func parseGetValue(out string, n int) []string {
 	out = strings.TrimSpace(out)
